@@ -428,6 +428,32 @@ pub fn run_to_count(emu: &mut Emu, pc: u16, max_frames: usize) -> (bool, usize) 
     (false, max_frames)
 }
 
+/// like `run_to_count` with further breakpoints on the way, from which the host simply resumes; also returns the number
+/// of such stops
+pub fn run_to_count_via(emu: &mut Emu, pc: u16, max_frames: usize, via: &[u16]) -> (bool, usize, usize) {
+    let mut s: HashSet<u16> = via.iter().copied().collect();
+    s.insert(pc);
+    emu.set_debug_interface(VDebug::Set(s));
+    emu.set_speed(EmulationMode::FrameCount(1));
+    let (mut frames, mut stops) = (0, 0);
+    while frames < max_frames && stops < 200 * (max_frames + 1) {
+        match emu.emulate_frames(Duration::from_secs(1000)) {
+            Ok(info) => {
+                if info.stop_reason == rustzx_core::EmulationStopReason::Breakpoint {
+                    if emu.verif_cpu().regs.get_pc() == pc {
+                        return (true, frames, stops);
+                    }
+                    stops += 1;
+                } else {
+                    frames += 1;
+                }
+            }
+            Err(_) => return (false, frames, stops),
+        }
+    }
+    (false, frames, stops)
+}
+
 /// Places bytes through the CPU write path (screen copy stays coherent, ROM is not written)
 pub fn poke_bytes(emu: &mut Emu, addr: u16, bytes: &[u8]) {
     for (i, b) in bytes.iter().enumerate() {
